@@ -195,7 +195,7 @@ func newDStruct(mask int, p *dProbe) flyt.Node {
 }
 
 type dCell struct {
-	Kind                          string
+	Kind                                string
 	Hp, He, Hpo, Hfb, Fails, Pres, Xnil bool
 }
 
